@@ -54,14 +54,20 @@ def render(ast, rnd=None, style="plain"):
             return f"({text})"
         return text
 
+    def inner(*pieces):
+        # whitespace is ignored between the tokens inside the square brackets, too
+        if wild and rnd.random() < 0.06:
+            return "[" + rnd.choice(["", " "]) + " ".join(p for p in pieces if p) + rnd.choice([" ", "  "]) + "]"
+        return "[" + "".join(p for p in pieces if p) + "]"
+
     def go(node, parent_prec, right_side=False):
         kind = node[0]
         if kind == "k":
-            return atom(f"[{node[1]}]")
+            return atom(inner(str(node[1])))
         if kind == "p":
-            return atom(f"[{node[1]}{node[2] or ''}]")
+            return atom(inner(node[1], node[2]))
         if kind == "ub":
-            return atom(f"[UB{node[1]}]")
+            return atom(inner(f"UB{node[1]}"))
         prec = PREC[kind]
         if kind == "ta":
             text = go(node[1], prec) + (rnd.choice(["", " "]) if wild else "") + go(node[2], prec, True)
@@ -195,8 +201,10 @@ def gen_wellformed(rnd, depth, cond_keys, package_keys, p_pkg=0.4, p_ub=0.15):
         if roll < p_pkg and package_keys:
             rep = None
             if rnd.random() < 0.4:
-                lo = rnd.choice([0, 1, 2, 7, 17])
+                lo = rnd.choice([0, 1, 2, 7, 17, 100])
                 rep = f"{lo}..{lo + rnd.choice([0, 1, 3, 10]) or 1}"
+                # min > max is not generated: the grammar's own comment documents n..m with m >= n, and the
+                # Repeatability model rejects it with a ValueError (DESIGN 9.3) - outside C10's quantifier
             return ("p", rnd.choice(package_keys), rep)
         if roll < p_pkg + p_ub:
             return ("ub", rnd.choice([1, 2, 3]))
